@@ -165,6 +165,15 @@ def run(ctx):
         k = min(150, ng - done)
         c07_mro.run_graphs(ctx, [c07_mro.gen_graph(ctx.rng) for _ in range(k)])
         done += k
+    # discriminated hierarchies (shared with C12): a required member of the selected variant that has no key is a
+    # MissingField naming it — on the first (cold registry) dispatch exactly as on every later one
+    from . import c12
+
+    nh = 250 if ctx.tier == "quick" else 3000
+    done = 0
+    while done < nh and ctx.time_left() > 20:
+        c12.run_batch(ctx, [c12.gen_history(ctx.rng, ctx.tier) for _ in range(250)], 500000 + done)
+        done += 250
     ctx.assumptions += ["non-mutation of the input is checked on the implementation only (vacuous in a pure model)"]
 
 
@@ -173,6 +182,11 @@ def replay(ctx, body):
         from . import c07_mro
 
         c07_mro.run_graphs(ctx, [body["case"]["graph"]])
+        return ctx.finish()
+    if "history" in body["case"]:
+        from . import c12
+
+        c12.run_batch(ctx, [body["case"]["history"]], 0)
         return ctx.finish()
     c = body["case"]
     decode.run_decode(ctx, [(c["ty"], c["input"], c.get("entry", "mixin"), "replay")], judge, annot=c.get("annot", False))
